@@ -267,3 +267,53 @@ Lemma run_stmts_abort vs ss1 s ss2 st st1 ps1 e :
 Proof.
   intros H1 H2. rewrite run_stmts_app, H1. cbn [bind run_stmts]. rewrite H2. reflexivity.
 Qed.
+
+(* ---------------- a send-all statement, end to end ---------------- *)
+Section SendAllSpec.
+Variable vs : env.
+Variable cache : balances.
+
+Theorem run_send_all r a src dst asset es ed st :
+  eval_as vs a expect_asset = Ok asset ->
+  eval_esrc vs asset src = Some es -> wf_esrc es ->
+  eval_edest vs asset dst = Some ed -> wf_edest ed ->
+  st_cache st = cache ->
+  match drain (fun x => bget cache x asset) es [] with
+  | Rejected => exists e, run_send vs (SVAll r a) src dst st = Err e /\
+                  (e = InvalidAllotmentInSendAll \/ exists n, e = InvalidUnboundedInSendAll n)
+  | DrainShort x y => run_send vs (SVAll r a) src dst st = Err (MissingFundsErr asset x y)
+  | DrainBadAllotment => run_send vs (SVAll r a) src dst st = Err InvalidAllotmentSum
+  | Drained g p =>
+      match distribute ed g with
+      | None => run_send vs (SVAll r a) src dst st = Err InvalidAllotmentSum
+      | Some cr =>
+          exists ps, run_send vs (SVAll r a) src dst st
+                       = Ok (ps, mkstate (apply_postings cache ps) (st_txmeta st) (st_accmeta st))
+            /\ reconcile asset p (nonzero cr) = Some ps
+            /\ posted ps = g - credited_to cr KEPT
+            /\ Forall (posting_ok p (nonzero cr)) ps
+            /\ Forall (fun q => passet q = asset) ps
+            /\ (forall x, debited ps x <= pulled_of p x)
+            /\ (forall s d, d <> KEPT_ADDR -> flow ps s d = flow_units p (nonzero cr) s d)
+      end
+  end.
+Proof.
+  intros Ha Hes Hwf Hed Hwfd Hc. unfold run_send, send_lists. rewrite Ha, Hc. cbn [bind].
+  pose proof (send_all_refines vs cache asset src es [] Hes) as Hx. unfold entry, pulled in *.
+  destruct (drain (fun x => bget cache x asset) es []) as [g p| |x y|] eqn:Ed; cbn [match_drain] in Hx.
+  - rewrite Hx. cbn [bind].
+    destruct (drain_bounds _ es [] g p Hwf Ed) as [Hg [[q [Hq [Hqpos Hqsum]]] _]]. cbn [app] in Hq. subst q.
+    destruct (receive_refines vs asset) as [Hr _]. specialize (Hr dst ed g [] Hed). unfold entry in *.
+    destruct (distribute ed g) as [cr|] eqn:Edist; cbn [match_dist] in Hr; rewrite Hr; cbn [bind app]; [|reflexivity].
+    destruct distribute_conserves as [Hcons _]. destruct (Hcons ed g cr Hwfd Hg Edist) as [Ht Hnn].
+    pose proof (nonzero_pos cr Hnn) as Hrpos.
+    destruct (reconcile_spec asset p (nonzero cr) Hqpos Hrpos) as [ps [Hrec [Hflow [Hok Hasset]]]].
+    exists ps. unfold get_postings. rewrite Hrec. repeat split; try assumption.
+    + rewrite Hc. reflexivity.
+    + rewrite (reconcile_total asset p (nonzero cr) ps Hqpos Hrpos ltac:(rewrite amounts_nonzero; unfold amounts; lia) Hrec), nonkept_nonzero. lia.
+    + intros x. apply (reconcile_debited asset p (nonzero cr) ps x Hqpos Hrpos Hrec).
+  - destruct Hx as [e [Hx He]]. exists e. rewrite Hx. split; [reflexivity|exact He].
+  - rewrite Hx. reflexivity.
+  - rewrite Hx. reflexivity.
+Qed.
+End SendAllSpec.
